@@ -740,7 +740,16 @@ def nontrivial(case, obs):
     return not _is_err(obs['res']) and tree_depth(case['tree']) >= 1
 
 
+NAMED_CLASSES = ('no_district_evaluated', 'district_missing_from_apportionment', 'max_seats_forced_on_inner_without_it',
+                 'preselector_accepts_seats_generic_over_seatless', 'n_seats_omitted_forwarded_as_None',
+                 'accepts_seats_generic_over_seatless', 'arguments_mutated', 'depth2_single_seat_number')
+
+
 def signature(case, clause):
+    """known findings are matched by (wrapper kind, input class); the symptom (which exception) is not part of it"""
+    parts = clause.split(':')
+    if len(parts) >= 2 and (parts[1] in NAMED_CLASSES or parts[1].startswith('prev_gains_dropped_for_')):
+        return f'eval_tree:{parts[0]}:{parts[1]}'
     return f'eval_tree:{clause}'
 
 
